@@ -7,6 +7,7 @@ import (
 	"fmt"
 	"io"
 	"strings"
+	"sync/atomic"
 	"time"
 
 	"tunnox-core/internal/protocol/session"
@@ -28,8 +29,13 @@ func execFw(toks []string) string {
 	me := vc.UnHex(toks[2])
 	up := genBytes(atoi(toks[4]), atoi(toks[5]))
 	down := genBytes(atoi(toks[7]), atoi(toks[8]))
-	cs, _ := parseSizes("cs", toks, 9)
+	cs, oi := parseSizes("cs", toks, 9)
+	ct, cl, ord := false, false, 0
+	if oi+3 < len(toks)+0 && toks[oi] == "opt" {
+		ct, cl, ord = toks[oi+1] == "1", toks[oi+2] == "1", atoi(toks[oi+3])
+	}
 	resCh := make(chan string, 1)
+	var sent, recv, closes atomic.Int64
 	var closers []io.Closer
 	defer func() {
 		for _, c := range closers {
@@ -53,12 +59,16 @@ func execFw(toks []string) string {
 		go func() {
 			defer close(fwdDone)
 			defer func() { recover() }()
-			session.VerifRunBidirectionalForward(&session.BidirectionalForwardConfig{
-				TunnelID: string(me), LogPrefix: "verif", LocalConn: local, RemoteConn: F,
-			})
+			cfg := &session.BidirectionalForwardConfig{TunnelID: string(me), LogPrefix: "verif", LocalConn: local, RemoteConn: F}
+			if ct {
+				cfg.BytesSentCounter, cfg.BytesReceivedCounter = &sent, &recv
+			}
+			if cl {
+				cfg.LocalConnCloser = closerFunc(func() error { closes.Add(1); return local.Close() })
+			}
+			session.VerifRunBidirectionalForward(cfg)
 		}()
-		// application: send, half-close
-		go func() {
+		sendUp := func() {
 			rest := up
 			for _, s := range cs {
 				if s <= 0 || len(rest) == 0 {
@@ -73,7 +83,48 @@ func execFw(toks []string) string {
 			}
 			app.Write(rest)
 			app.CloseWrite()
-		}()
+		}
+		finish := func(upGot, downGot []byte) {
+			done := 0
+			select {
+			case <-fwdDone:
+				done = 1
+			case <-time.After(3 * time.Second):
+			}
+			cnt, cls := "na na", "na"
+			if ct {
+				cnt = fmt.Sprintf("%d %d", sent.Load(), recv.Load())
+			}
+			if cl {
+				cls = fmt.Sprint(closes.Load())
+			}
+			resCh <- fmt.Sprintf("up %s down %s done %d cnt %s closes %s", vc.Hex(upGot), vc.Hex(downGot), done, cnt, cls)
+		}
+		if ord == 1 {
+			// the answer direction finishes first: the peer answers and closes before the application sends
+			if _, err := P.Write(down); err != nil {
+				resCh <- "peer-write-error " + strings.ReplaceAll(err.Error(), " ", "_")
+				return
+			}
+			P.Close()
+			downGot := make([]byte, len(down))
+			if _, err := io.ReadFull(app, downGot); err != nil {
+				resCh <- "app-read-error " + strings.ReplaceAll(err.Error(), " ", "_")
+				return
+			}
+			go sendUp()
+			upGot, uerr := io.ReadAll(P)
+			if uerr != nil {
+				resCh <- "peer-read-error " + strings.ReplaceAll(uerr.Error(), " ", "_")
+				return
+			}
+			// the local connection is closed by the forwarder once both directions are done
+			extra, _ := io.ReadAll(app)
+			finish(upGot, append(downGot, extra...))
+			return
+		}
+		// application: send, half-close
+		go sendUp()
 		// peer: read to end-of-stream, answer, close
 		upGot, uerr := io.ReadAll(P)
 		if uerr != nil {
@@ -90,13 +141,7 @@ func execFw(toks []string) string {
 			resCh <- "app-read-error " + strings.ReplaceAll(derr.Error(), " ", "_")
 			return
 		}
-		done := 0
-		select {
-		case <-fwdDone:
-			done = 1
-		case <-time.After(5 * time.Second):
-		}
-		resCh <- fmt.Sprintf("up %s down %s done %d", vc.Hex(upGot), vc.Hex(downGot), done)
+		finish(upGot, downGot)
 	}()
 	select {
 	case o := <-resCh:
@@ -108,7 +153,7 @@ func execFw(toks []string) string {
 
 func genFw(r *vc.Rand, thorough bool) []caseLine {
 	var out []caseLine
-	rounds := 60
+	rounds := 96
 	if thorough {
 		rounds = 600
 	}
@@ -123,8 +168,9 @@ func genFw(r *vc.Rand, thorough bool) []caseLine {
 		if r.Intn(2) == 0 {
 			cs = randSizes(r, ul, 10)
 		}
-		text := fmt.Sprintf("fw me %s up %d %d down %d %d %s", vc.Hex(me), ul, r.Intn(256), dl, r.Intn(256), sizesStr("cs", cs))
-		dk := fmt.Sprintf("%x/%d/%d/%v", me, ul, dl, cs)
+		ct, cl, ord := i%2, (i/2)%2, (i/4)%2
+		text := fmt.Sprintf("fw me %s up %d %d down %d %d %s opt %d %d %d", vc.Hex(me), ul, r.Intn(256), dl, r.Intn(256), sizesStr("cs", cs), ct, cl, ord)
+		dk := fmt.Sprintf("%x/%d/%d/%v/%d%d%d", me, ul, dl, cs, ct, cl, ord)
 		if ul == 0 && dl == 0 {
 			dk = ""
 		}
